@@ -32,7 +32,7 @@ CLAIM = dict(
          "(messages to it are dropped, its wake-ups do nothing); (2) every call record of a dispatched event carries is_active = true "
          "(except after a panic of the module's own callback in that event); (3) a record holds exactly one reset iff it holds a shutdown "
          "request, tear-down never resets; (4) a restart event happens only at exactly the requested time (last request of the event wins), "
-         "once per request, no requested restart is left over when the run completes, and its start-up stages run once each, in order, at "
+         "once per request, every run completes and no requested restart is left over, and its start-up stages run once each, in order, at "
          "that time; (5) every task step is logged with the incarnation that spawned it and that equals the number of resets so far: "
          "nothing created before a shutdown acts after it; (6) consuming a shutdown request changes no other module's state, no global "
          "slot and no queued event other than inserting the restart event; (7) whether a message is delivered depends only on the active "
@@ -45,10 +45,11 @@ CLAIM = dict(
          "Not modelled: that dropping the tokio runtime really cancels tasks (observed via drop guards and task logs). The start-up sweep "
          "and the tear-down sweep call at_sim_start(stage >= 1) / at_sim_end on every module irrespective of is_active; those lifecycle "
          "calls are not 'message handlers, tasks or timers' and are outside (1)-(2). 'Behaves like a freshly started module' is claimed in "
-         "the form (5) + (4): fresh tasks, stages replayed; a whole-trace comparison with a fresh module is not proved. Completion of the "
-         "run (fuel) is a hypothesis of the 'no restart left over' part.",
+         "the form (5) + (4): fresh tasks, stages replayed; a whole-trace comparison with a fresh module is not proved. Every run of the "
+         "model terminates (proved: C09_run_terminates), so 'no restart left over' holds unconditionally.",
     technique="Coq: invariants over a step relation generating every world of the run (reset => down, down => inert), an interpreter invariant "
-              "tying logged samples to state, event-set bookkeeping of restart events; differential correspondence check; log monitor",
+              "tying logged samples to state, event-set bookkeeping of restart events, termination by a potential; differential correspondence "
+              "check; log monitor",
     design="6/C09")
 
 
